@@ -6,4 +6,4 @@ Extraction "../ocaml/build/c12_model.ml"
   format_error format_error_with_context push_error_context pop_error_context
   add_context_and_filter validate filter_issues_by_severity check_for_any_errors
   sort_issues get_keys export issue_py replace_tag_references json_ok py_code py_items
-  sidecar_validate table_validate table_validate_gen gate_nonempty onset_processed.
+  code_sorts_early sidecar_validate table_validate table_validate_gen gate_nonempty onset_processed.
